@@ -18,7 +18,8 @@ CLAIMS = {
             "the lookup stages return has exactly the frame's code object. "
             "Bounded companion: program templates traced by the real tracer against ground truth from sys.monitoring.",
             TRUST + "T-EVENTS (CPython 3.12 profile protocol: cause/opcode relation) assumed and validated by the bounded tier; get_locals_from_previous_frames assumed; "
-            "carve-outs for the recorded known findings (unwind at a yield point, code named trace_types, mid-life pickup of generators)."),
+            "carve-outs for the recorded known findings (unwind at a yield point, code named trace_types, mid-life pickup of generators); two more findings are bounded-only observations: a lookup that fails once is cached for the "
+            "lifetime of the tracer (negative cache), and wrappers produced by one decorator share a code object, so the cache returns the first wrapper's function for all."),
     "C03": ("proof", "6.C03",
             "Containment: CallTracer.__call__ is proved to return self and let no Exception escape, whatever get_type / get_func / logger.log raise; "
             "trace_calls is proved to restore the previous profiler and call flush exactly once on normal and exceptional exit, whatever the with-body did to the profiler slot. "
@@ -52,8 +53,9 @@ CLAIMS = {
     "C10": ("proof", "6.C10",
             "cli.get_stub loop invariant (decoded traces = exactly the decodable thunks in order; failure count; stderr effect trace: one warning per failure with -v, one summary "
             "line with the count otherwise, nothing when none failed), print/apply handlers ('No traces found' iff nothing decodes; file written only after a successful application), "
-            "and the exceptional contract of the decode chain (to_trace, type_from_dict, get_func_in_module, get_name_in_module: MonkeyTypeError only) for every stale kind.",
-            TRUST + "T-IMPORT (import either succeeds or raises ModuleNotFoundError; getattr succeeds or raises AttributeError), rows produced by the encoder; cli.main / argparse bounded."),
+            "and the exceptional contract of the decode chain (to_trace, type_from_dict, get_func_in_module, get_name_in_module: MonkeyTypeError only) for every stale kind; what get_func_in_module returns is a Python function "
+            "(types.FunctionType after unwrapping decorators / property getters) whose own __module__ / __qualname__ are the row's (post:python-function, post:own-name): a name since bound to a class, a builtin, a partial or another function is stale.",
+            TRUST + "T-IMPORT (import either succeeds or raises; any exception of the import or of the attribute walk is turned into NameLookupError by the code, proved), rows produced by the encoder; cli.main / argparse bounded."),
     "C12": ("proof", "6.C12",
             "render_signature: for every valid signature of any length the token list equals the parameters in order with exactly one '/' right after the positional-only ones and "
             "one bare '*' before the first keyword-only parameter unless *args precedes it (loop invariant with ghost counting functions), single-line and wrapped forms are joins "
@@ -74,7 +76,8 @@ CLAIMS = {
     "C18": ("proof", "6.C18",
             "handle_call with the sampling draw as an explicit ghost input: unsampled call leaves the view unchanged, an entry is created only for this frame, with "
             "arg types = get_type of the values bound at that moment, and only when the draw is 0 (or the rate is unset / 0); trace_calls installs, for the duration of the block, a fresh tracer with exactly the given sampling rate "
-            "(and logger, filter, limit) and no per-call state; monkeytype.trace threads Config.sample_rate (default proved None) into it.",
+            "(and logger, filter, limit) and no per-call state; monkeytype.trace threads Config.sample_rate (default proved None) into it; the draw comes from the tracer's own random.Random (the program's generator is "
+            "neither consumed nor able to steer it: effect obligation on the module-level generator); handle_return consults the per-call table before it touches the returned value, so an unsampled call's return value is never inspected.",
             TRUST + "uniformity/independence of random.randrange (statistical half bounded); mid-life pickup of generators is a recorded known finding (carve-out on cause)."),
 }
 
@@ -94,7 +97,7 @@ CLAIMS["C05"] = ("exploration", "6.C05",
     "Bounded: lock-step tightness walk of the inferred (merged) type against the multiset of values it was inferred from (every union alternative, exact class, Any, "
     "required / optional key witnessed), over generated value multisets x k. Proved extras (reported under coverage.obligations): get_type returns the exact runtime class "
     "for non-containers and never the bare Any; the literal Any is produced only on the empty-input branch of shrink_types, the empty-dict branch of get_dict_type and the "
-    "generator branch of get_type (inventory obligations with path conditions); a top-level TypedDict from get_dict_type has exactly the dict's keys, all required.",
+    "generator branch of get_type (inventory obligations with path conditions); a top-level TypedDict from get_dict_type has exactly the dict's keys, all required, and is built only when every key is an exact str (a str-subclass key gives Dict[<that class>, V]: post:td-exact-str-keys).",
     TRUST + "the witness oracle `tight` of runtime/props/c05.py (reads 'Any as an alternative' as the element type of an observed empty container); the closure lemma over merges is not proved.")
 CLAIMS["C06"] = ("proof", "6.C06",
     "Proved: the deep invariant td_okd(t, k) - every TypedDict node of t, at any depth, has between 1 and k keys, none at all for k <= 0 - holds of the result of get_type / get_dict_type for every value, "
@@ -108,8 +111,9 @@ CLAIMS["C06"] = ("proof", "6.C06",
 CLAIMS["C14"] = ("exploration", "6.C14",
     "Bounded: one trace multiset written to real sqlite stores in several orders, with duplicates, split into batches over two connections; `stub` run in fresh interpreters with "
     "different PYTHONHASHSEED, k in {0,3}, default and no rewriter: identical stub up to union-member order. Proved extras: make_query groups by all selected columns (distinct rows) "
-    "and SQLiteStore.filter returns exactly the query's rows; cli.get_stub builds the stub from the decoded rows in query order with the configured parameters.",
-    TRUST + "determinism of shrink_types / stub builders over sets is not proved in this round (bounded only).")
+    "and SQLiteStore.filter returns exactly the query's rows; cli.get_stub builds the stub from the decoded rows in query order with the configured parameters; FunctionStub.render strips module prefixes in one regex pass whose "
+    "alternation is sorted (longest first, ties by text), so the text does not depend on set iteration order; RewriteLargeUnion._rewrite_to_tuple compares element types by equality, not identity.",
+    TRUST + "determinism of shrink_types / stub builders over sets is not proved in this round (bounded only); recorded known finding: RewriteLargeUnion picks the common base by walking a set of classes (address order) when several bases tie.")
 
 CLAIMS["C11"] = ("exploration", "6.C11",
     "Bounded (decides the statement): for types over classes spread across modules whose names are dotted / textual suffixes of one another, a class named like its module, nested classes, _io types and anonymous "
@@ -127,9 +131,13 @@ CLAIMS["C11"] = ("exploration", "6.C11",
 CLAIMS["C16"] = ("proof", "6.C16",
     "RemoveImportsTransformer.leave_Import / leave_ImportFrom are proved (nested loop invariants) to remove a name only if the ImportItem it denotes (module, object, alias) is in the move list, "
     "to invent nothing, to leave star imports untouched and to remove a statement iff all its names moved; _remove_typing_module is proved never to confine typing or mypy_extensions items "
-    "(what generated code needs at import time). Bounded companion on real libcst: source shapes (incl. names bound again by later imports, except-branch fallbacks, sources with nothing left to annotate) x stubs, "
+    "(what generated code needs at import time). cli._all_import_items (exactly the items of the import statements the gatherer saw, star imports as their own item), get_newly_imported_items "
+    "(only stub imports that the source does not already have are handed to the mover: post:source-imports-never-moved / only-stub-imports / complete) and apply_stub_using_libcst (the order of the libcst pipeline: "
+    "parse, apply annotations, move only the newly imported items, only with confine_new_imports_in_type_checking_block) are proved; MoveImportsToTypeCheckingBlockVisitor._split_module / _add_if_type_checking_block / "
+    "transform_module_impl are proved to keep every statement, insert the TYPE_CHECKING block after the leading __future__ / import statements and add `from __future__ import annotations` whenever something is confined. Bounded companion on real libcst: source shapes (incl. names bound again by later imports, except-branch fallbacks, sources with nothing left to annotate) x stubs, "
     "placement of every import on the AST, first statement, result executed in a fresh namespace.",
-    TRUST + "T-CST (libcst node API: names, evaluated_name / evaluated_alias, with_changes, RemoveFromParent), AddImportsVisitor / __future__ insertion and get_newly_imported_items are bounded only.")
+    TRUST + "T-CST (libcst node API: names, evaluated_name / evaluated_alias, with_changes, RemoveFromParent; GatherImportsVisitor as the views g_all / g_symbols / ... validated by the bounded tier), "
+    "libcst's AddImportsVisitor / ApplyTypeAnnotationsVisitor are uninterpreted pipeline stages at L1 (bounded); two recorded known findings (a function-local or TYPE_CHECKING-guarded source import of a stub name is re-added unconfined by libcst).")
 CLAIMS["C15"] = ("exploration", "6.C15",
     "Bounded stand-in (the substance of C15 is libcst's ApplyTypeAnnotationsVisitor, a dependency of several thousand lines outside any VC generator available here; assuming its contract would assume "
     "the property): run-time contract erase(parse(result)) == erase(parse(source)), existing annotations unchanged unless overwrite, stub annotations present, idempotence, on the real function over "
